@@ -168,3 +168,57 @@ def cases(fn, e, use, pm, pred, ctx=None, depth=0):
                 out.extend(cases(fn, v, st, pm, pred, ctx if ctx is not None else c2, depth + 1))
             return out
     return [(ctx, e)]
+
+
+# ------------------------------------------------------------------------------------------------ guarded values
+def _ctx_of(fn, node, pm):
+    """frozenset of (canonical atomic condition text, truth) governing node (if statements, conditional expressions)."""
+    out = set()
+    for test, truth in path_context(fn, node, pm):
+        for e, tv in _atoms(test, truth) or [(test, truth)]:
+            e2 = expand(fn, e, node, pm)
+            if isinstance(e2, ast.NamedExpr):
+                e2 = e2.value
+            if isinstance(e2, ast.UnaryOp) and isinstance(e2.op, ast.Not):
+                e2, tv = e2.operand, not tv
+                if isinstance(e2, ast.NamedExpr):
+                    e2 = e2.value
+            if isinstance(e2, ast.Compare) and len(e2.ops) == 1 and isinstance(e2.ops[0], (ast.NotEq, ast.IsNot, ast.NotIn)):
+                inv = {ast.NotEq: ast.Eq, ast.IsNot: ast.Is, ast.NotIn: ast.In}[type(e2.ops[0])]
+                e2, tv = ast.Compare(left=e2.left, ops=[inv()], comparators=e2.comparators), not tv
+            out.add((cnorm(e2), tv))
+    return frozenset(out)
+
+
+def guarded_values(fn, e, use, pm, depth=0, ctx=frozenset(), follow=True):
+    """[(conditions, value expr)]: the values e can take at `use`, split over conditional expressions and over the
+    reaching definitions of local names (each with the conditions of the branch it is defined in).  `conditions` is a
+    frozenset of (canonical atomic condition, truth)."""
+    if depth > 6:
+        return [(ctx, e)]
+    if isinstance(e, ast.IfExp):
+        out = []
+        for branch, tv in ((e.body, True), (e.orelse, False)):
+            c = set(ctx)
+            for a, av in _atoms(e.test, tv) or [(e.test, tv)]:
+                a2 = expand(fn, a, use, pm)
+                if isinstance(a2, ast.UnaryOp) and isinstance(a2.op, ast.Not):
+                    a2, av = a2.operand, not av
+                if isinstance(a2, ast.Compare) and len(a2.ops) == 1 and isinstance(a2.ops[0], (ast.NotEq, ast.IsNot, ast.NotIn)):
+                    inv = {ast.NotEq: ast.Eq, ast.IsNot: ast.Is, ast.NotIn: ast.In}[type(a2.ops[0])]
+                    a2, av = ast.Compare(left=a2.left, ops=[inv()], comparators=a2.comparators), not av
+                c.add((cnorm(a2), av))
+            out += guarded_values(fn, branch, use, pm, depth + 1, frozenset(c), follow)
+        return out
+    if isinstance(e, ast.Name) and follow:
+        ds = reaching_definitions(fn.node, e.id, use, pm)
+        if ds and all(how == 'assign' and v is not None for _, v, how in ds) and not any(
+                isinstance(x, ast.Name) and x.id == e.id for _, v, _ in ds for x in ast.walk(v)):
+            out = []
+            for st, v, how in ds:
+                c = frozenset(set(ctx) | set(_ctx_of(fn, st, pm)))
+                if isinstance(v, ast.NamedExpr):
+                    v = v.value
+                out += guarded_values(fn, v, st, pm, depth + 1, c, follow)
+            return out
+    return [(ctx, e)]
